@@ -13,6 +13,9 @@ import (
 	"crypto/sha1"
 	"errors"
 	"fmt"
+	"net/http"
+	"net/http/httptest"
+	"reflect"
 	"sort"
 	"strings"
 	"sync"
@@ -54,6 +57,7 @@ type Sim struct {
 	Total    int64
 	Lo, Hi   int // the pieces that have real hashes (all of them unless sparse)
 	Fake     *peer.Peer
+	Interval int64 // Torrent.requestInterval at the last snapshot (-1: field not found)
 	haveMu   sync.Mutex
 	haves    map[uint32]int // PeerHave{i,true} broadcasts seen by the fake peer
 	PS       uint32
@@ -78,6 +82,12 @@ func (w logWriter) Write(p []byte) (int, error) {
 		// on the event loop's goroutine
 		snap := w.s.T.VerifRequested()
 		sort.Slice(snap, func(i, j int) bool { return snap[i].Index < snap[j].Index })
+		// the interval of the request ticker (0 = stopped), read by the loop itself
+		if f := reflect.ValueOf(w.s.T).Elem().FieldByName("requestInterval"); f.IsValid() && f.CanInt() {
+			w.s.Interval = f.Int()
+		} else {
+			w.s.Interval = -1
+		}
 		w.s.snapCh <- snap
 		return len(p), nil
 	}
@@ -108,7 +118,28 @@ func TorrentFile(name string, ps uint32, files []File, single bool, content []by
 
 // TorrentFileSparse: only pieces lo..hi get their real hash (hi < 0: all); the others get a
 // dummy one, so that geometries of several GiB cost nothing.  Only lo..hi may be injected.
+var webOnce sync.Once
+var webURL string
+
+// WebSeedURL: a local server that answers 404 to everything — a configured, enabled web
+// seed that never delivers.
+func WebSeedURL() string {
+	webOnce.Do(func() {
+		srv := httptest.NewServer(http.HandlerFunc(func(w http.ResponseWriter, r *http.Request) {
+			http.Error(w, "no such file", http.StatusNotFound)
+		}))
+		webURL = srv.URL + "/seed/"
+	})
+	return webURL
+}
+
+// WithWebSeed: the next torrents built get a url-list (set by NewOpt's caller through the
+// argument; kept as a parameter of TorrentFileSparse2).
 func TorrentFileSparse(name string, ps uint32, files []File, single bool, ref func(a, b int64) []byte, lo, hi int) []byte {
+	return TorrentFileSparse2(name, ps, files, single, ref, lo, hi, nil)
+}
+
+func TorrentFileSparse2(name string, ps uint32, files []File, single bool, ref func(a, b int64) []byte, lo, hi int, urlList []string) []byte {
 	var total int64
 	for _, f := range files {
 		total += f.Length
@@ -148,7 +179,11 @@ func TorrentFileSparse(name string, ps uint32, files []File, single bool, ref fu
 	if err != nil {
 		panic(err)
 	}
-	tb, err := bencode.EncodeBytes(map[string]interface{}{"info": bencode.RawMessage(ib)})
+	top := map[string]interface{}{"info": bencode.RawMessage(ib)}
+	if len(urlList) > 0 {
+		top["url-list"] = urlList
+	}
+	tb, err := bencode.EncodeBytes(top)
 	if err != nil {
 		panic(err)
 	}
@@ -176,6 +211,11 @@ func New(name string, salt uint32, ps uint32, files []File, single bool) (*Sim, 
 // peer without goroutines whose event channel the harness drains (it sees the PeerHave
 // broadcast of every TorHave the loop handles).
 func NewOpt(name string, salt uint32, ps uint32, files []File, single bool, lo, hi int, fakePeer bool) (*Sim, error) {
+	return NewOpt2(name, salt, ps, files, single, lo, hi, fakePeer, false)
+}
+
+// NewOpt2: webSeed configures a web seed (disabled until SetConf enables web seeds).
+func NewOpt2(name string, salt uint32, ps uint32, files []File, single bool, lo, hi int, fakePeer, webSeed bool) (*Sim, error) {
 	var total int64
 	for _, f := range files {
 		total += f.Length
@@ -186,7 +226,11 @@ func NewOpt(name string, salt uint32, ps uint32, files []File, single bool, lo, 
 	if hi < 0 {
 		s.Content = Content(salt, total)
 	}
-	tb := TorrentFileSparse(name, ps, files, single, s.Ref, lo, hi)
+	var urls []string
+	if webSeed {
+		urls = []string{WebSeedURL()}
+	}
+	tb := TorrentFileSparse2(name, ps, files, single, s.Ref, lo, hi, urls)
 	t, err := tor.ReadTorrent("", bytes.NewReader(tb))
 	if err != nil {
 		return nil, err
